@@ -868,6 +868,8 @@ BRACKET_SAMPLES = (
     ("['\\ud83d\\ude00']", [("name", "\U0001f600")]), ("['a\\\\nb']", [("name", "a\\nb")]), ("['$']", [("name", "$")]), ("['*']", [("name", "*")]),
     ("['0']", [("name", "0")]), ("['a', 'b']", [("name", "a"), ("name", "b")]), ("[ 'a' , 'a' ]", [("name", "a"), ("name", "a")]),
     ("['a',\n\t\"b\"]", [("name", "a"), ("name", "b")]),
+    # an escaped backslash followed by the other quote character (the quote is NOT escaped by that backslash)
+    ("['\\\\\"']", [("name", "\\\"")]), ('["\\\\\'"]', [("name", "\\'")]), ("['a\\\\\"b\\\\']", [("name", "a\\\"b\\")]),
     ("[0]", [("index", 0)]), ("[-1]", [("index", -1)]), ("[10]", [("index", 10)]), ("[0, 1, 0]", [("index", 0), ("index", 1), ("index", 0)]),
     ("[1:3]", [("slice", 1, 3, None)]), ("[::2]", [("slice", None, None, 2)]), ("[::-1]", [("slice", None, None, -1)]), ("[1:]", [("slice", 1, None, None)]),
     ("[:2]", [("slice", None, 2, None)]), ("[ 1 : 3 : 1 ]", [("slice", 1, 3, 1)]), ("[-2:-1:0]", [("slice", -2, -1, 0)]), ("[:]", [("slice", None, None, None)]),
@@ -916,4 +918,81 @@ def r1_15(ctx: Ctx) -> RuleResult:
     return rr
 
 
-RULES = [r1_1, r1_2, r1_3, r1_4, r1_5, r1_6, r1_7, r1_8, r1_9, r1_10, r1_11, r1_12, r1_13, r1_14, r1_15]
+NODELIST_DOC = {"a": {"a": {"b": 1, "a": [5, 6]}, "b": 2}, "l": [[1, 2], [3]], "s": "x"}
+NODELIST_INPUTS = (
+    [("a",), ("a", "a")],            # a node and one of its descendants (what `$..a` hands to a following segment)
+    [("a", "a"), ("a",)],
+    [("a",), ("a",)],                # the same node twice (`$[a, a]`)
+    [("l",), ("l", 0)],
+    [("l", 0), ("l",), ("l", 0), ("s",)],
+    [],
+)
+NODELIST_SELECTORS = (
+    ("RecursiveDescentSelector", {}), ("WildSelector", {"shorthand": False}), ("PropertySelector", {"name": "a", "shorthand": False}),
+    ("IndexSelector", {"index": 0}), ("IndexSelector", {"index": -1}), ("SliceSelector", {"start": None, "stop": None, "step": None}),
+    ("KeysSelector", {"shorthand": False}),
+)
+
+
+def r1_16(ctx: Ctx) -> RuleResult:
+    """RFC 9535 2.1.2 / 2.5: a segment is applied to every node of its input nodelist, in order, and the results are
+    concatenated - nodelists are lists, so a node reached from two input nodes is in the result twice.  Each selector's
+    `resolve` is executed abstractly *as a whole* (rules/model.py, containers changed in place) on input lists that
+    hold a node and its descendant, the same node twice, and nothing: the result must be the concatenation of the
+    results for the one-element lists."""
+    import copy as _copy
+
+    from sa.peval import UNKNOWN
+
+    from .model import RAISES
+    from .model import MObj
+    from .model import Model
+
+    rr = RuleResult("R1.16", "a selector's result for a nodelist is the concatenation of its results for the nodes", floor=len(NODELIST_INPUTS) * len(NODELIST_SELECTORS))
+
+    def run(cname: str, kwargs: Dict[str, object], nodes: List[Tuple[object, ...]]) -> Optional[List[Tuple[object, object]]]:
+        model = Model(ctx, "R1.16")
+        model.whole_bodies = model.auto_construct = model.exact_exceptions = model.heap = True
+        doc = _copy.deepcopy(NODELIST_DOC)
+        env = model.new("jsonpath.env.JSONPathEnvironment")
+        tok = MObj(model, "jsonpath.token.Token", {"kind": "X", "value": "x", "index": 0, "path": "$"})
+        sel = model.new("jsonpath.selectors." + cname, env=env, token=tok, **kwargs)
+        matches = []
+        for parts in nodes:
+            v: object = doc
+            for p_ in parts:
+                v = v[p_]  # type: ignore[index]
+            matches.append(model.new("jsonpath.match.JSONPathMatch", filter_context={}, obj=v, parent=None,
+                                     path="$" + "".join(f"[{p_!r}]" for p_ in parts), parts=tuple(parts), root=doc))
+        got = model.call(sel, "resolve", [matches])
+        if got is RAISES or got is UNKNOWN or not isinstance(got, (list, tuple)):
+            return None
+        out: List[Tuple[object, object]] = []
+        for x in got:
+            if not isinstance(x, MObj) or x.fields.get("parts", UNKNOWN) is UNKNOWN or x.fields.get("obj", UNKNOWN) is UNKNOWN:
+                return None
+            out.append((tuple(x.fields["parts"]), _copy.deepcopy(x.fields["obj"])))  # type: ignore[arg-type]
+        return out
+
+    for cname, kwargs in NODELIST_SELECTORS:
+        cls = ctx.repo.require_class("jsonpath.selectors." + cname)
+        fn = ctx.repo.find_method(cls, "resolve")
+        if fn is None:
+            raise AnalysisError(f"R1.16: {cname}.resolve not found")
+        shown = f"{cname}({', '.join(f'{k}={v!r}' for k, v in kwargs.items())})"
+        for nodes in NODELIST_INPUTS:
+            whole = run(cname, kwargs, list(nodes))
+            singles = [run(cname, kwargs, [n]) for n in nodes]
+            if whole is None or any(x is None for x in singles):
+                raise AnalysisError(f"R1.16: {shown}.resolve cannot be followed on the nodes {list(nodes)}")
+            want = [y for x in singles for y in x]  # type: ignore[union-attr]
+            if whole == want:
+                rr.ok(fn.loc(), f"{shown} on {list(nodes)}: {len(want)} nodes, the concatenation of the per-node results")
+            else:
+                rr.bad(fn, fn.node, f"{shown}.resolve on the nodelist {list(nodes)} gives the locations {[list(p_) for p_, _v in whole]}, but node by node the "
+                       f"results are {[list(p_) for p_, _v in want]}: a segment's result is the concatenation over its input nodes, duplicates included",
+                       construct=f"{shown} on {list(nodes)}")
+    return rr
+
+
+RULES = [r1_1, r1_2, r1_3, r1_4, r1_5, r1_6, r1_7, r1_8, r1_9, r1_10, r1_11, r1_12, r1_13, r1_14, r1_15, r1_16]
